@@ -30,6 +30,15 @@ PROPS = {
           'cases. Oracle: sorted permutation / sorted union / per-key sum; injected errors must surface; no spiller-* directory in the private '
           'TMPDIR after SortReader returns. Non-trivial: >=2 streams merged, or more rows than the canary (>=2 spills), or an error actually delivered.',
           must_observe=['sorts_with_multiple_spills', 'injected_errors_propagated', 'rows_merged', 'spill_dir_checks'], leftover_is_violation=True),
+ 'C17': P('exploration',
+          'cases = (subject, rows per upstream stream, upstream chunk scripts {k rows | 0 rows,nil | k rows+EOF}, destination-size script, '
+          'parameter, data seed) for 20 subjects: the Reader(shard, deps) of const, readerfunc, map, filter, flatmap, fold, head, writerfunc, '
+          'scan, reshuffle, reduce, cogroup; sliceio.MultiReader, FrameReader; exec multiReader and task-buffer reader (verif export); '
+          'Scanner.Scan/Scanv incl. wrong arity/type. Bounded-exhaustive over sizes {0,1,2,3,5,6,127,128,129,300} x 9 chunk scripts x 8 '
+          'destination scripts (quick: every 4th), plus seeded random cases. Oracle: row-level statement of each operator; 0<=n<=len(dst); '
+          'canary rows beyond n intact on successful calls; frames delivered earlier unchanged at the end. Non-trivial: the case completed '
+          'with a reader actually driven; distinct by descriptor.',
+          must_observe=['rows_delivered', 'reads']),
 }
 
 META = {
@@ -51,4 +60,10 @@ META = {
     note='Trusts the row model and comparison functions of universe.go and the chunk/destination adversaries; merge and reduce-merge '
          'inputs never return (0,nil) (documented as end of input).',
     technique='property-based runtime monitoring with reference sort/merge/fold oracle, temp-dir leak check'),
+ 'C17': dict(
+    text='Exploration: every reader the library builds is driven by a destination adversary (scripted sizes, canary rows, retained frames) '
+         'over a chunking adversary, against row-level reference semantics.',
+    note='ReaderFunc is exempt from the canary check (the whole destination is handed to the user function by API design); reduce never '
+         'gets (0,nil) upstream reads (documented end of input); destination contents after a failed call are not asserted.',
+    technique='contract monitoring with destination/chunking adversaries and reference operator semantics'),
 }
